@@ -98,6 +98,22 @@ def extract(src):
         if users != 5:
             raise KeyError("kafkacodec: _group_payloads is not used by all five broker-aware encoders (%d)" % users)
 
+    # _send_broker_aware_request: is a repeated key refused before the resolution loop? (c97bc61)
+    sbar = src.func("client.py", "KafkaClient._send_broker_aware_request")
+    first_for = min((n.lineno for n in ast.walk(sbar) if isinstance(n, ast.For)), default=10**9)
+    validates_first = any(
+        isinstance(n, ast.Raise) and isinstance(n.exc, ast.Call) and getattr(n.exc.func, "id", None) == "ValueError"
+        and n.exc.args and isinstance(n.exc.args[0], ast.Constant) and "more than one payload" in str(n.exc.args[0].value)
+        and n.lineno < first_for
+        for n in ast.walk(sbar))
+    # close(): idempotent (1d62725)? wakes retry delays (2a79d59)?
+    close_fn = src.func("client.py", "KafkaClient.close")
+    idempotent = any(
+        isinstance(n, ast.If) and isinstance(n.test, ast.Compare) and isinstance(n.test.left, ast.Attribute) and n.test.left.attr == "clients"
+        and any(isinstance(b, ast.Return) for b in n.body)
+        for n in ast.walk(close_fn))
+    wakes = any(isinstance(n, ast.Attribute) and n.attr == "_retry_delays" for n in ast.walk(close_fn))
+
     def ints(l):
         return "[" + ", ".join("(%d)" % x for x in l) + "]"
 
@@ -114,4 +130,7 @@ def extract(src):
         ("clientDefaultKafkaPort", port),
         ("clientJoinMinTimeout", float(const_value(join_min))),
         ("clientEncoderRefusesDuplicates", bool(refuses)),
+        ("clientSendValidatesKeysFirst", bool(validates_first)),
+        ("clientCloseIdempotent", bool(idempotent)),
+        ("clientCloseWakesRetryDelays", bool(wakes)),
     ]
